@@ -658,6 +658,9 @@ func (s *sim) Apply(op simcore.Op) bool {
 func lieClass(li *lie) string {
 	f := li.field
 	if li.method == "tx_search" {
+		if len(f) > 10 && f[:10] == "tx.result." {
+			return "result" // same gap as tx.result: results are not tied to LastResultsHash
+		}
 		return "unverified" // one root cause: TxSearch relays the backend's answer as is
 	}
 	has := func(p string) bool { return len(f) >= len(p) && f[:len(p)] == p }
